@@ -81,7 +81,7 @@ StepF(fs, ts, i, coarse) ==
          LET id == Len(fs.atoms)
              o2 == IF fs.pend # -1 THEN 2 * fs.pend
                    ELSE IF coarse THEN 2 ELSE Default2(fs.atoms[fs.prev + 1], t)
-             bonded == fs.prev # -1 /\ (coarse \/ fs.pend # 0)     \* '.' is "no bond" in SMILES
+             bonded == fs.prev # -1      \* '.' is kept as a bond of order 0 (as pysmiles and the CG reader do)
          IN [fs EXCEPT !.atoms = Append(@, t),
                        !.desc = Append(@, IF id = 0 THEN fs.lead ELSE <<>>),
                        !.bonds = IF bonded THEN @ \cup {<<fs.prev, id, o2>>} ELSE @,
@@ -123,7 +123,7 @@ WellFormedF(fs, ts, i, coarse) ==
   LET t == ts[i] IN
   CASE t.k = "A" -> fs.last \in {"S", "A", "B", "R", "(", ")", "D", "bl", "Z"}
     [] t.k = "D" -> /\ t.v \in Kinds
-                    /\ fs.last \in {"S", "A", "R", "D", ")", "bc", "bl"}
+                    /\ fs.last \in {"S", "A", "R", "D", ")", "bc", "bl", "Z"}
     [] t.k = "B" -> /\ t.v \in FSymbols
                     /\ CASE SymRole(ts, i) = "lead" -> fs.last = "D" /\ NextIn(ts, i, {"A", "D"})
                           [] SymRole(ts, i) = "cap"  -> fs.last \in {"A", "R", ")", "D"} /\ Len(fs.atoms) > 0
@@ -139,7 +139,7 @@ WellFormedF(fs, ts, i, coarse) ==
                     /\ NextIn(ts, i, IF coarse THEN {"A"} ELSE {"A", "Z", "B"})
     [] t.k = ")" -> fs.last \in {"A", "R", ")", "D"} /\ Len(fs.stack) > 0
     [] t.k = "Z" -> /\ ~coarse /\ t.v \in {"/", "\\"}
-                    /\ fs.last \in {"A", "R", "(", ")", "D"} /\ NextIn(ts, i, {"A"})
+                    /\ fs.last \in {"A", "R", "(", ")", "D"} /\ NextIn(ts, i, {"A", "D"})
     [] OTHER -> FALSE
 
 RECURSIVE RunF(_, _, _, _)
